@@ -103,6 +103,12 @@ def main():
             scan = kv.trusted_scan(u.gen_text)
             info = {'unit': uname, 'u': u, 'res': res, 'oblig': oblig, 'times': times, 'scan': scan, 'ntok': ntok, 'und': und, 'nfail': len(fails)}
             unit_infos.append(info)
+            if getattr(u, 'stub_lemmas', None) is not None:
+                # stub justification lemmas do not depend on /repo: a failure is a defect of the prelude, never an alarm
+                bad = [f for f in fails if any(l.startswith('KV-STUB:') for l in f['labels']) or not f['props']]
+                if bad:
+                    undecided.append('%s: stub justification failed: %s' % (uname, sorted(set(l for f in bad for l in f['labels']))))
+                continue
             # vacuity probe
             if not args.no_probe and not und:
                 pu, pres, pfails, pund, _ = run_unit(uname, tier, True, False)
@@ -150,6 +156,7 @@ def main():
         (listed if hit else new).append((f, hit))
 
     fns, n_obl, solver_s, trusted, dropped, transformations, samples = [], 0, 0.0, [], [], {}, []
+    stub_just = None
     cmds, probes = [], []
     for info in unit_infos:
         u = info['u']
@@ -186,6 +193,17 @@ def main():
         dropped += u.dropped
         for k, c in u.transformations().items():
             transformations[k] = transformations.get(k, 0) + c
+        if getattr(u, 'stub_lemmas', None) is not None:
+            for ln in u.stub_lemmas:
+                key = '%s::stub_justification::%s' % (info['unit'], ln)
+                cnt = info['oblig'].get(key, 0)
+                fns.append({'function': 'stub justification lemma %s (generated from the stand-in contract by tools/stubjust.py)' % ln, 'obligations': cnt,
+                            'solver_s': round(info['times'].get(key, 0.0), 3)})
+                n_obl += cnt
+                solver_s += info['times'].get(key, 0.0)
+                if cnt == 0 and info['oblig'] and not info['und'] and not info['nfail']:
+                    undecided.append('%s: no obligation counted for %s' % (info['unit'], ln))
+            stub_just = {'proved': list(u.stub_lemmas), 'not_justified': [list(x) for x in u.stub_assumed]}
         if 'probe' in info:
             probes.append(dict(unit=info['unit'], **info['probe']))
         trusted += u.trusted_notes
@@ -257,6 +275,7 @@ def main():
             'extraction': {'source_tokens_checked_by_erasure': sum(i['ntok'] for i in unit_infos),
                            'transformations_applied': transformations, 'dropped': dropped},
             'vacuity_probe': probes,
+            'stub_justification': stub_just,
             'bounded': bounded + cfg.get('bounded', []),
             'not_covered': cfg.get('not_covered', []),
             'failed_obligations': [{'labels': f['labels'], 'function': f['fn'], 'message': f['message']} for f in mine],
